@@ -1,3 +1,5 @@
 import CrdtModel.Audit.Tool
+import CrdtModel.Props.SysList
 import CrdtModel.Props.C13
 #audit_ns Crdt.C13
+#audit_ns Crdt.SysList
